@@ -91,7 +91,7 @@ func runHarness(w *World, verif, tier string, seed int, h harnessSpec) boundedRe
 	return res
 }
 
-const managerBound = "the real loadTasks against an in-memory PostgreSQL stand-in (pgproto3 over net.Pipe): two integration names each absent / enabled / disabled in the file and in the database (81 mixes) x 4 source-reference sets (one source with start and stop, two sources incl. one defined in both file and database, an unknown source, a known plus an unknown source): exactly one task per enabled integration (file wins on a clash) and referenced source, with the source's chain id, batch size and concurrency (file wins) and the reference's start/stop; an unknown source is an error; plus a second family: a file decoded from text and four database rows that differ from one another (source, range incl. stop == start and stop < start, event, missing enabled key) in 7 subsets/orders, sources setting only batch size or only concurrency: every task has its own integration's source, range, settings and topic filter (independently known Keccak-256 of the declared signature)"
+const managerBound = "the real loadTasks against an in-memory PostgreSQL stand-in (pgproto3 over net.Pipe): two integration names each absent / enabled / disabled in the file and in the database (81 mixes) x 4 source-reference sets (one source with start and stop, two sources incl. one defined in both file and database, an unknown source, a known plus an unknown source): exactly one task per enabled integration (file wins on a clash) and referenced source, with the source's chain id, batch size and concurrency (file wins) and the reference's start/stop; an unknown source is an error; plus a second family: a file decoded from text and four database rows that differ from one another (source, range incl. stop == start and stop < start, event, missing enabled key, a name that differs from another only in letter case) in 10 subsets/orders, sources setting only batch size or only concurrency: every task has its own integration's source, range, settings and topic filter (independently known Keccak-256 of the declared signature), its own names and chain id in its context, and all destinations of a load decode into pairwise distinct state"
 
 const confdecBound = "the documented configuration keys decoded the way cmd/shovel and config.Integrations do: 54 dashboard switch/password combinations (passwords containing $ inside are literal), 5 start spellings x 8 stop spellings of a source reference (number, quoted, $ENV, absent; stop == start, stop < start, 2^64-1) next to a fully specified source and a second integration, file document and database row, 4 batch-size/concurrency combinations: every value arrives in its own field"
 
@@ -109,6 +109,13 @@ func managerCheck(name string) func(w *World, tier string, seed int, verif strin
 			bound: managerBound,
 		})}
 	}
+}
+
+func printSchemaCheck(w *World, tier string, seed int, verif string) []boundedResult {
+	return []boundedResult{runHarness(w, verif, tier, seed, harnessSpec{
+		name: "printed-definitions", pkg: "cmd/shovel", pkgName: "main", dir: "printschema", files: []string{"printschema_bounded_test.go"}, run: "TestVerifPrintSchemaBounded",
+		bound: "cmd/shovel built from the tree under check and run with -print-schema on 6 configurations (two integrations sharing a table with different columns in both orders, a third on its own table, subsets, a file integration on a source that only the database defines): the program starts, and the printed statements executed against a model of 'create table if not exists' (first definition wins) leave every column and unique-key column an integration writes present in its table",
+	})}
 }
 
 const depsBound = "every assignment of {no reference, reference to A, B or C} to three event inputs and two block fields (4^5 = 1024) x two declaration orders x 3 variants (plain, index already declared, A and B sharing one table) through the real ValidateFix: Dependencies is exactly the set of referenced integrations, each referenced table gets an index on the referenced column, each reference (event input or block field) gets the referenced table's name; two dependents of one integration"
@@ -147,12 +154,7 @@ func init() {
 			bound: "real Input.Selected / Event.Selected vs an independent specification for all input trees of depth <= 2 with <= 2 components per node, every selection/indexed pattern (second component thinned to a third at the top level), and a thinned set of two-input events",
 		})}
 	})
-	boundedChecks["C16"] = append(boundedChecks["C16"], func(w *World, tier string, seed int, verif string) []boundedResult {
-		return []boundedResult{runHarness(w, verif, tier, seed, harnessSpec{
-			name: "printed-definitions", pkg: "cmd/shovel", pkgName: "main", dir: "printschema", files: []string{"printschema_bounded_test.go"}, run: "TestVerifPrintSchemaBounded",
-			bound: "cmd/shovel built from the tree under check and run with -print-schema on 5 configurations (two integrations sharing a table with different columns in both orders, a third on its own table, subsets): the printed statements executed against a model of 'create table if not exists' (first definition wins) leave every column and unique-key column an integration writes present in its table",
-		})}
-	})
+	boundedChecks["C16"] = append(boundedChecks["C16"], printSchemaCheck)
 	boundedChecks["C15"] = append(boundedChecks["C15"], func(w *World, tier string, seed int, verif string) []boundedResult {
 		return []boundedResult{runHarness(w, verif, tier, seed, harnessSpec{
 			name: "dashboard-submission", pkg: "shovel/web", pkgName: "web", dir: "web", files: []string{"save_bounded_test.go"}, run: "TestVerifSaveIntegrationBounded",
@@ -168,7 +170,7 @@ func init() {
 	boundedChecks["C12"] = append(boundedChecks["C12"], func(w *World, tier string, seed int, verif string) []boundedResult {
 		return []boundedResult{runHarness(w, verif, tier, seed, harnessSpec{
 			name: "pushdown-loses-nothing", pkg: "dig", pkgName: "dig", dir: "plan", files: []string{"plan_bounded_test.go", "pushdown_bounded_test.go"}, run: "TestVerifPushdownBounded",
-			bound: "log_addr filter with 4 operators (contains, !contains, eq, ne) x 6 argument sets (either token, both, an unknown address, a 10-byte fragment, upper-case hex) x aggregation and/or/default x 4 second filters on the event value (none, eq matching either transaction, ne), through the real dig.New -> Filter -> jrpc2.Client.Get -> Insert over 2 blocks x 2 transactions with logs from two contracts, once with the scripted node applying the eth_getLogs address restriction and once ignoring it: the stored rows must be equal",
+			bound: "log_addr filter with 4 operators (contains, !contains, eq, ne) x 6 argument sets (either token, both, an unknown address, a 10-byte fragment, upper-case hex) x aggregation and/or/default x 4 second filters on the event value (none, eq matching either transaction, ne), through the real dig.New -> Filter -> jrpc2.Client.Get -> Insert over 2 blocks x 2 transactions with logs from two contracts, once with the scripted node applying the eth_getLogs address restriction and once ignoring it: the stored rows must be equal; a reference filter (contains / !contains) asks the referenced table every time: absent, present, absent, present under one integration object",
 		})}
 	})
 	boundedChecks["C05"] = append(boundedChecks["C05"], func(w *World, tier string, seed int, verif string) []boundedResult {
@@ -198,6 +200,20 @@ func init() {
 	boundedChecks["C06"] = append(boundedChecks["C06"], managerCheck("tasks-exactly-configured"), confdecCheck)
 	boundedChecks["C13"] = append(boundedChecks["C13"], managerCheck("tasks-exactly-configured"))
 	boundedChecks["C19"] = append(boundedChecks["C19"], confdecCheck)
+	// names that differ only in letter case keep their own identity columns (C16);
+	// every destination decodes into state of its own (C10)
+	boundedChecks["C16"] = append(boundedChecks["C16"], managerCheck("tasks-exactly-configured"))
+	boundedChecks["C10"] = append(boundedChecks["C10"], managerCheck("tasks-exactly-configured"))
+	// the program starts with a file integration on a source only the database defines
+	boundedChecks["C20"] = append(boundedChecks["C20"], printSchemaCheck)
+	for _, pid := range []string{"C02", "C01"} {
+		boundedChecks[pid] = append(boundedChecks[pid], func(w *World, tier string, seed int, verif string) []boundedResult {
+			return []boundedResult{runHarness(w, verif, tier, seed, harnessSpec{
+				name: "retry-after-failed-copy", pkg: "dig", pkgName: "dig", dir: "plan", files: []string{"plan_bounded_test.go", "retry_bounded_test.go"}, run: "TestVerifRetryBounded",
+				bound: "7 data plans (headers/blocks + logs, blocks/headers + receipts, blocks, receipts, traces; two logs per transaction): Get + Insert with a CopyFrom that fails after reading the rows, then twice more on the same client and integration object over the same range with a healthy connection: each retry stores exactly the rows of a run without the fault",
+			})}
+		})
+	}
 	boundedChecks["C04"] = append(boundedChecks["C04"], func(w *World, tier string, seed int, verif string) []boundedResult {
 		return []boundedResult{runHarness(w, verif, tier, seed, harnessSpec{
 			name: "task-names-agree", pkg: "shovel", pkgName: "shovel", dir: "manager", files: []string{"fakepg_test.go", "loadtasks_bounded_test.go"}, run: "TestVerifLoadTasksBounded",
@@ -223,12 +239,12 @@ func init() {
 		})
 	}
 	// integrations with different log filters sharing the cached blocks of one client
-	for _, pid := range []string{"C08", "C04", "C12", "C13", "C01", "C07"} {
+	for _, pid := range []string{"C08", "C04", "C12", "C13", "C01", "C07", "C02"} {
 		pid := pid
 		boundedChecks[pid] = append(boundedChecks[pid], func(w *World, tier string, seed int, verif string) []boundedResult {
 			return []boundedResult{runHarness(w, verif, tier, seed, harnessSpec{
 				name: "shared-client-log-filters", pkg: "dig", pkgName: "dig", dir: "plan", files: []string{"plan_bounded_test.go", "sharedlogs_bounded_test.go"}, run: "TestVerifSharedLogsBounded",
-				bound: "every transaction emits two logs from two contracts; four integrations (eth_getLogs restricted to the first contract, to the second, unrestricted, and one taking its logs from the receipts) x {headers + logs, blocks + logs} plans on ONE client in 10 request orders (ABA, BAB, ABUAB, UAB, BUA, AUB, AR, BRA, RAB, ABR) over 2 blocks x 2 transactions, the node applying the address restriction: every request stores exactly what an uncached client gives that integration, which is what the node reports for it",
+				bound: "every transaction emits two logs from two contracts; four integrations (eth_getLogs restricted to the first contract, to the second, unrestricted, and one taking its logs from the receipts) x {headers + logs, blocks + logs} plans on ONE client in 15 request orders (ABA, BAB, ABUAB, UAB, BUA, AUB, AR, BRA, RAB, ABR, RR, ARR, UR, URU, URR; the receipts reader also reports the receipt status), plus 8 interleavings (one loads, another loads the same range, the first inserts) over 2 blocks x 2 transactions, the node applying the address restriction: every request stores exactly what an uncached client gives that integration, which is what the node reports for it",
 			})}
 		})
 	}
@@ -236,7 +252,7 @@ func init() {
 	// the same stand-ins that decide it for C11/C12/C14
 	// cached answers must be the answers of an uncached client: the shared-client
 	// scenarios of the all-pairs stand-in (different plans, different lengths on one client)
-	for _, pid := range []string{"C06", "C08", "C04", "C05"} {
+	for _, pid := range []string{"C06", "C08", "C04", "C05", "C12"} {
 		pid := pid
 		boundedChecks[pid] = append(boundedChecks[pid], func(w *World, tier string, seed int, verif string) []boundedResult {
 			return []boundedResult{runHarness(w, verif, tier, seed, harnessSpec{
@@ -245,12 +261,12 @@ func init() {
 			})}
 		})
 	}
-	for _, pid := range []string{"C01", "C02"} {
+	for _, pid := range []string{"C01", "C02", "C05", "C03"} {
 		pid := pid
 		boundedChecks[pid] = append(boundedChecks[pid], func(w *World, tier string, seed int, verif string) []boundedResult {
 			return []boundedResult{runHarness(w, verif, tier, seed, harnessSpec{
 				name: "pushdown-loses-nothing", pkg: "dig", pkgName: "dig", dir: "plan", files: []string{"plan_bounded_test.go", "pushdown_bounded_test.go"}, run: "TestVerifPushdownBounded",
-				bound: "see C12: 432 filter configurations, the scripted node applying vs ignoring the eth_getLogs address restriction: the rows stored for a block are the same",
+				bound: "see C12: 432 filter configurations, the scripted node applying vs ignoring the eth_getLogs address restriction: the rows stored for a block are the same; a reference filter asks the referenced table every time (the table changes 4 times under one integration object)",
 			})}
 		})
 	}
